@@ -4,6 +4,7 @@ use serde_json::Value;
 pub mod c01;
 pub mod c02;
 pub mod c03;
+pub mod c04;
 pub mod c05;
 pub mod c06;
 pub mod c07;
@@ -39,6 +40,7 @@ pub fn dispatch(id: &str, tier: Tier, replay: Option<&str>) {
         "c01" => c01::run(tier, replay),
         "c02" => c02::run(tier, replay),
         "c03" => c03::run(tier, replay),
+        "c04" => c04::run(tier, replay),
         "c05" => c05::run(tier, replay),
         "c06" => c06::run(tier, replay),
         "c07" => c07::run(tier, replay),
